@@ -18,9 +18,19 @@ GLOBAL_ASSUMPTIONS = [
 ]
 
 PROPS = {
+    'C05': {
+        'units': [],
+        'aux': ['native_linearize'],
+        'level': 'other',
+        'claim': 'Bounded native contract check of the real Prog::linearize: for thousands of random well-typed non-linear AxCut programs the linearized program is checked against the executable form of the property - at every statement the ordered environment is exactly the list that statement expects (call / invoke / let / switch / create), positions agree in kind and type, substitutions read bound variables and bind pairwise distinct targets, operands remain available - and its behaviour on an AxCut reference machine (consuming, positional discipline) equals that of the source program (named, non-consuming discipline).',
+        'note': 'Bounded (random programs of bounded size), never counted as proved. The oracle is the property text, clause by clause, plus a reference interpreter written for this purpose (trusted).',
+        'technique': 'bounded native contract check of linearize against the executable postcondition (exact environments) and a reference AxCut machine',
+        'not_decided': 'linearization for all programs (unbounded); the reference interpreter is trusted',
+        'explanation': 'Bounded contract check only so far: random non-linear programs -> Prog::linearize -> executable postcondition + behavioural equality on a reference machine.',
+    },
     'C06': {
         'units': ['x86_code'],
-        'aux': ['native_emitters_x86', 'native_moves'],
+        'aux': ['native_emitters_x86', 'native_moves', 'native_programs_x86'],
         'level': 'proof',
         'claim': 'Every instruction emitter of the x86-64 backend is proved, for all operand placements (registers / spill slots, every aliasing pattern the call sites allow) and all 64-bit contents, to have exactly the effect of the abstract operation on an explicit ISA model, with a full frame (everything but the named scratch locations unchanged). This is the instruction-selection layer of C06, proved without bound; whole-program simulation is not decided.',
         'note': 'Trusted: the hand-written ISA specification, the extraction rules, the printer, Verus/Z3. Program-level composition is not decided.',
@@ -30,7 +40,7 @@ PROPS = {
     },
     'C07': {
         'units': ['a64_code'],
-        'aux': ['native_emitters_a64', 'native_moves', 'kani_bitkernels'],
+        'aux': ['native_emitters_a64', 'native_moves', 'kani_bitkernels', 'native_programs_a64'],
         'level': 'proof',
         'claim': 'Every instruction emitter of the AArch64 backend is proved, for all operand placements and all 64-bit contents, to have exactly the effect of the abstract operation on an explicit A64 model (including the three code paths of rem with their scratch-register clashes and, for load_immediate, the MOVZ/MOVN/MOVK synthesis of every 64-bit literal), with a full frame. Whole-program simulation is not decided.',
         'note': 'Trusted: the hand-written A64 specification, the extraction rules, the printer, Verus/Z3.',
@@ -40,7 +50,7 @@ PROPS = {
     },
     'C08': {
         'units': ['rv64_code'],
-        'aux': ['native_emitters_rv', 'native_moves'],
+        'aux': ['native_emitters_rv', 'native_moves', 'native_programs_rv'],
         'level': 'proof',
         'claim': 'Every Instructions method of the RISC-V backend is proved to push instructions whose effect on an RV64 model is exactly the abstract operation (one instruction each; add_and_jump uses the scratch register X1), the variable-to-register map is 2*position + number + 4 with the capacity assertion unreachable below 14 variables, and print_i64 is unreachable for print-free programs. All three backends are proved against the same effect vocabulary (wadd/wsub/wmul/wdiv/wrem, slt/sle), which is the sense in which they agree. Whole-program simulation is not decided.',
         'note': 'Trusted: the hand-written RV64 specification (LW/SW read as 64-bit accesses as the property states), extraction rules, Verus/Z3.',
